@@ -1147,7 +1147,7 @@ fn replace(hay: &[u8], from: &[u8], to: &[u8]) -> Vec<u8> {
 }
 
 /// `K=V` where V is bare or quoted the way `shell_escape::unix::escape` quotes
-fn parse_export(b: &[u8]) -> Option<(String, String)> {
+pub fn parse_export(b: &[u8]) -> Option<(String, String)> {
     let eq = b.iter().position(|c| *c == b'=')?;
     let k = String::from_utf8(b[..eq].to_vec()).ok()?;
     let v = &b[eq + 1..];
